@@ -24,7 +24,7 @@ ENTRY = dict(
                 "time, at quiescence); parallel-multiple satisfiers are covered by the theorems that do not assume `Plain` "
                 "(conservation, stale events) and by C14, not by the release theorem"),
     technique="Lean 4 proof (dichotomy over extracted facts, invariants over operation histories) + lock-step differential under deadlines",
-    lean_modules=["Bpmn.Props.C11", "Bpmn.Props.C11Current", "Bpmn.Props.C11Match", "Bpmn.Props.EngineCurrent"],
+    lean_modules=["Bpmn.Props.C11MatchCurrent", "Bpmn.Props.C11", "Bpmn.Props.C11Current", "Bpmn.Props.C11Match", "Bpmn.Props.EngineCurrent"],
     families=["c11", "c11match"],
     exhaustive=False,
     multi_seed=False,   # the enumerated scripts do not depend on the seed; the thorough tier draws more seeded ones instead
